@@ -85,6 +85,103 @@ def h_array_fill(wp, n, args, obj):
     return V('0', 'Int', 'int')
 
 
+# ----------------------------------------------------------------------------- std::array iterators, std::accumulate
+def h_array_iter(end):
+    """a.begin() / a.cbegin() / a.end() / a.cend() of a modelled std::array: an iterator value V(k, 'Iter', array name) at the
+    constant position k"""
+    def h(wp, n, args, obj):
+        arr = array_name(wp, obj)
+        return V(str(wp.env[arr].c if end else 0), 'Iter', arr)
+    return h
+
+
+def iter_hook(wp, n):
+    """iterator +/- constant on a modelled std::array (the result must stay inside [begin, end])"""
+    if n.get('kind') != 'BinaryOperator' or n.get('opcode') not in ('+', '-'):
+        return None
+    q = qual(n.get('type')) + ' ' + n.get('type', {}).get('qualType', '')
+    if 'iterator' not in q and not qual(n.get('type')).rstrip().endswith('*'):
+        return None
+    a = wp.ev(n['inner'][0])
+    if a.s != 'Iter':
+        raise Unsupported(f'{wp.name}: pointer / iterator arithmetic on an unmodelled range')
+    b = wp.ev(n['inner'][1])
+    if b.s != 'Int' or not re.fullmatch(r'\d+', b.t):
+        raise Unsupported(f'{wp.name}: std::array iterator moved by a non-constant distance')
+    k = int(a.t) + (int(b.t) if n['opcode'] == '+' else -int(b.t))
+    if not (0 <= k <= wp.env[a.c].c):
+        # undefined behaviour: a refuted obligation (the verdict); execution continues with the iterator clamped to the range
+        wp.oblige('std::array iterator stays inside [begin, end]', 'false', n)
+        k = max(0, min(k, wp.env[a.c].c))
+    return V(str(k), 'Iter', a.c)
+
+
+def common_int_type(a, b):
+    """usual arithmetic conversions of two integer C types (after integer promotion)"""
+    R = nvwp.INT_RANGES
+
+    def promote(t):
+        lo, hi = R[t]
+        return 'int' if (lo >= R['int'][0] and hi <= R['int'][1]) else t
+    a, b = promote(a), promote(b)
+    if a == b:
+        return a
+    width = lambda t: (R[t][1] - R[t][0]).bit_length()
+    sa, sb = R[a][0] < 0, R[b][0] < 0
+    if sa == sb:
+        return a if width(a) >= width(b) else b
+    u, s = (b, a) if sa else (a, b)
+    if width(u) >= width(s):
+        return u
+    if R[s][0] <= R[u][0] and R[u][1] <= R[s][1]:
+        return s
+    return {'int': 'unsigned int', 'long': 'unsigned long', 'long long': 'unsigned long long'}[s]
+
+
+def h_std_accumulate(wp, n, args, callee):
+    """std::accumulate(first, last, init, op) over a modelled std::array with op = std::multiplies<..> / std::plus<..> (or no op =
+    plus): EXACT semantics of [accumulate]:  T acc = init;  for each element: acc = op(acc, *it)  where T is the type of `init`.
+    A transparent functor (std::multiplies<>) computes acc * element in the usual-arithmetic-conversion type of the two
+    operands, a typed one (std::multiplies<long>) in its own type; the result is then CONVERTED BACK TO T at every step, which
+    is an explicit obligation (`conversion to T preserves the value`): an `int` init truncates every partial result."""
+    first, last = wp.ev(args[0]), wp.ev(args[1])
+    if first.s != 'Iter' or last.s != 'Iter' or first.c != last.c:
+        raise Unsupported(f'{wp.name}: std::accumulate over an unmodelled range')
+    arr = first.c
+    lo, hi = int(first.t), int(last.t)
+    if lo > hi:
+        wp.oblige('std::accumulate: first <= last (a valid range)', 'false', n)
+        hi = lo
+    init = wp.ev(args[2])
+    s, T = wp.sort_of(args[2]['type'])
+    if s != 'Int':
+        raise Unsupported(f'{wp.name}: std::accumulate with a non-integer accumulator')
+    op, fty = '+', None
+    if len(args) > 3:
+        q = strip_cv(qual(args[3]['type']))
+        m = re.match(r'(?:struct )?std::(multiplies|plus|minus)<(.*)>$', q)
+        if not m:
+            raise Unsupported(f'{wp.name}: std::accumulate with the operation {q}')
+        op = {'multiplies': '*', 'plus': '+', 'minus': '-'}[m.group(1)]
+        inner = m.group(2).strip()
+        if inner not in ('', 'void'):
+            fty = wp.base({'qualType': inner})
+            if fty not in nvwp.INT_RANGES:
+                raise Unsupported(f'{wp.name}: std::accumulate with the functor type {inner}')
+    wp.note('std::accumulate (exact, accumulator type = type of init)')
+    acc = wp.conv(init, 'Int', T, n)
+    for k in range(lo, hi):
+        e = wp.env[f'{arr}.{k}']
+        ct = fty or common_int_type(T, e.c or 'long')
+        r = wp.arith(op, wp.conv(acc, 'Int', ct, n), wp.conv(e, 'Int', ct, n), ct, n)
+        acc = wp.conv(r, 'Int', T, n)          # acc = op(acc, *it): converted back to the accumulator type
+    return acc
+
+
+STD_ARRAY_MEMBERS = [(r'^c?begin\|(const )?std::array', h_array_iter(False)), (r'^c?end\|(const )?std::array', h_array_iter(True))]
+STD_NUMERIC_CALLS = [(r'^accumulate\|', h_std_accumulate)]
+
+
 class IdEnvWP(WP):
     """WP whose variables are keyed by name, with duplicate parameter names (expanded packs) disambiguated"""
 
